@@ -432,9 +432,9 @@ theorem modelOutcome_authenticated (keys : List Server.Key) (nowT : Tsig.TimeSig
   rw [h2]; simp only
   rw [h3]
 
-/-- **C10 (1a) + (1c)**: the audit's view of a request whose scan reaches a TSIG record, with its
+/-- (extended form: also the bounds the later clauses need) **C10 (1a) + (1c)**: the audit's view of a request whose scan reaches a TSIG record, with its
     outcome evaluated: it is the model's decision on the record of the same `TsigRun` -/
-theorem request_outcome (cfg : Server.Cfg) (tr : Server.Transport) (now bufLen : Nat) (req : Bytes)
+theorem request_outcome_ext (cfg : Server.Cfg) (tr : Server.Transport) (now bufLen : Nat) (req : Bytes)
     (hbuf : minBuf tr cfg.payload ≤ bufLen) (hpay : 512 ≤ cfg.payload) (hreq : req.size ≤ Rdata.USIZE_MAX)
     (hr : (Spec.Server.specScanWith (catKind cfg) cfg.payload req).respond = true)
     (hv : (Spec.Server.specScanWith (catKind cfg) cfg.payload req).verdict = .tsigReached)
@@ -446,7 +446,8 @@ theorem request_outcome (cfg : Server.Cfg) (tr : Server.Transport) (now bufLen :
       mw = req.extract 0 d.pos ∧ r'.cursor = d.next ∧ t = viewRr kn alg rest ∧
       Spec.ServerTsig.viewRequest hmS (cfg.keys.map keyCfgOf) req now =
         some ⟨kn.labels, fieldsOf alg.labels rest, mw.toList, modelOutcome cfg.keys nowT kn alg rest mw.toList,
-          Spec.ServerTsig.findKey (cfg.keys.map keyCfgOf) kn.labels⟩ := by
+          Spec.ServerTsig.findKey (cfg.keys.map keyCfgOf) kn.labels⟩ ∧
+      10 ≤ rest.length ∧ 12 ≤ d.pos ∧ d.pos ≤ req.size ∧ Tsig.MsgOk mw.toList := by
   obtain ⟨t, mw, r', question, d, owner, nl, fl, kn, alg, rest, hrun, hfind, _, _, _, hdn, hknwf, hknw, halgwf, _,
     h10, hms, hpos12, har1, hmw, hr', ht, _, hview⟩ :=
     request_view cfg tr now bufLen req hbuf hpay hreq hr hv hmS (cfg.keys.map keyCfgOf)
@@ -466,7 +467,7 @@ theorem request_outcome (cfg : Server.Cfg) (tr : Server.Transport) (now bufLen :
     omega
   have hmsg : Tsig.MsgOk mw.toList := by rw [hmw]; exact msgOk_prefix req d.pos hpos12 hdsz har1
   have hout := outcome_view cfg.keys hk kn alg hknwf halgwf rest h10 hms now nowT hnow mw.toList hmsg
-  refine ⟨t, mw, r', question, d, kn, alg, rest, hrun, hfind, hknwf, halgwf, hmw, hr', ?_, ?_⟩
+  refine ⟨t, mw, r', question, d, kn, alg, rest, hrun, hfind, hknwf, halgwf, hmw, hr', ?_, ?_, h10, hpos12, hdsz, hmsg⟩
   · rw [ht, ← hknw]; rfl
   · rw [hview]
     have hout' : Spec.ServerTsig.specTsigOutcome (cfg.keys.map keyCfgOf) kn.labels (fieldsOf alg.labels rest)
@@ -476,5 +477,24 @@ theorem request_outcome (cfg : Server.Cfg) (tr : Server.Transport) (now bufLen :
             other := (fieldsOf alg.labels rest).other } [])) now =
         modelOutcome cfg.keys nowT kn alg rest mw.toList := hout
     rw [hout']
+
+/-- **C10 (1a) + (1c)**: the audit's view of a request whose scan reaches a TSIG record, with its
+    outcome evaluated: it is the model's decision on the record of the same `TsigRun` -/
+theorem request_outcome (cfg : Server.Cfg) (tr : Server.Transport) (now bufLen : Nat) (req : Bytes)
+    (hbuf : minBuf tr cfg.payload ≤ bufLen) (hpay : 512 ≤ cfg.payload) (hreq : req.size ≤ Rdata.USIZE_MAX)
+    (hr : (Spec.Server.specScanWith (catKind cfg) cfg.payload req).respond = true)
+    (hv : (Spec.Server.specScanWith (catKind cfg) cfg.payload req).verdict = .tsigReached)
+    (hk : KeysOK cfg.keys) (nowT : Tsig.TimeSigned) (hnow : Tsig.TimeSigned.tryFromUnix now = some nowT) :
+    ∃ (t : Tsig.ReadTsigRr) (mw : Bytes) (r' : Reader) (question : Option (WName × Nat × Nat))
+      (d : Spec.Server.Delim) (kn alg : WName) (rest : List UInt8),
+      ServerContent.TsigRun cfg tr now bufLen req t mw r' question ∧
+      Spec.ServerTsig.findTsig req = some d ∧ kn.WF ∧ alg.WF ∧
+      mw = req.extract 0 d.pos ∧ r'.cursor = d.next ∧ t = viewRr kn alg rest ∧
+      Spec.ServerTsig.viewRequest hmS (cfg.keys.map keyCfgOf) req now =
+        some ⟨kn.labels, fieldsOf alg.labels rest, mw.toList, modelOutcome cfg.keys nowT kn alg rest mw.toList,
+          Spec.ServerTsig.findKey (cfg.keys.map keyCfgOf) kn.labels⟩ := by
+  obtain ⟨t, mw, r', question, d, kn, alg, rest, h1, h2, h3, h4, h5, h6, h7, h8, _⟩ :=
+    request_outcome_ext cfg tr now bufLen req hbuf hpay hreq hr hv hk nowT hnow
+  exact ⟨t, mw, r', question, d, kn, alg, rest, h1, h2, h3, h4, h5, h6, h7, h8⟩
 
 end QV.ServerScan
